@@ -40,6 +40,19 @@ func c08Excluded(tokens []string, code string) bool {
 // setConfig drives the real ConfigReader: via the flag or via the environment variable (in which
 // case the flag set is re-created under the new environment exactly as package init does).
 func c08SetConfig(value string, viaEnv bool) {
+	// the OTHER options rotate through settings that cannot change the verdicts of the covering program (it has no test
+	// files and no path contains an exclude entry): default, empty exclude-paths by flag, an unrelated entry by
+	// environment, scan-tests on with an empty exclude-paths variable
+	c08Companion++
+	comp := c08Companion % 4
+	os.Unsetenv("GOGREEMENT_EXCLUDE_PATHS")
+	os.Unsetenv("GOGREEMENT_SCAN_TESTS")
+	switch comp {
+	case 2:
+		os.Setenv("GOGREEMENT_EXCLUDE_PATHS", "zzz-nowhere")
+	case 3:
+		os.Setenv("GOGREEMENT_EXCLUDE_PATHS", "")
+	}
 	if viaEnv {
 		os.Setenv("GOGREEMENT_EXCLUDE_CHECKS", value)
 		analyzer.ConfigReader.Flags = *config.CreateFlagSet()
@@ -50,15 +63,27 @@ func c08SetConfig(value string, viaEnv bool) {
 			common.Fatalf("flag set: %v", err)
 		}
 	}
+	switch comp {
+	case 1:
+		if err := analyzer.ConfigReader.Flags.Set("exclude-paths", ""); err != nil {
+			common.Fatalf("flag set: %v", err)
+		}
+	case 3:
+		if err := analyzer.ConfigReader.Flags.Set("scan-tests", "true"); err != nil {
+			common.Fatalf("flag set: %v", err)
+		}
+	}
 	resetConfig()
 }
+
+var c08Companion int
 
 func C08(tier common.Tier) int {
 	run := common.NewRun("C08", tier, "model_checking")
 	thorough := tier == "thorough"
 	tokens := c08Tokens()
 	run.SetRule("state = one configuration S of exclude-checks; the covering program (all 16 codes, 3 files, 2 packages) is analysed by the real ConfigReader -> IgnoreReader -> checkers path in-process (flag value or environment variable; VerifResetConfig hook between configurations) and the diagnostic set must equal the unrestricted baseline filtered by the ALL>category>code rule. Subsets are enumerated in order of cardinality. Conformance: a spread of configurations is also run on the real binary and the vet driver (flag and env) against the same reference. Non-trivial = S removes at least one and keeps at least one diagnostic.",
-		"quick: all subsets of the 22 real tokens with |S|<=2 in both orders, the complements (all codes of a category but one, all codes but one, all categories but one, all codes of two categories), all ordered sequences with repetition of length<=3 over 7 tokens, all 2^3 sub-chains {ALL,category,code} per code, junk tokens, case/spacing variants, flag and env, each also on the program variant with inert @ignore markers and on a variant with real markers (category / list / ALL) judged against its own unrestricted run; thorough: all 2^22 subsets in order of cardinality under a time budget (completed cardinality reported)")
+		"every configuration is accompanied by one of four settings of the OTHER options (default; exclude-paths empty by flag; an unrelated exclude-paths entry by variable; scan-tests on with an empty exclude-paths variable), none of which can change the covering program's verdicts; quick: all subsets of the 22 real tokens with |S|<=2 in both orders, the complements (all codes of a category but one, all codes but one, all categories but one, all codes of two categories), all ordered sequences with repetition of length<=3 over 7 tokens, all 2^3 sub-chains {ALL,category,code} per code, junk tokens, case/spacing variants, flag and env, each also on the program variant with inert @ignore markers and on a variant with real markers (category / list / ALL) judged against its own unrestricted run; thorough: all 2^22 subsets in order of cardinality under a time budget (completed cardinality reported)")
 	run.Assume("hook: analyzer.VerifResetConfig (build tag verif, overlay) forgets the process-wide cached configuration; nothing else is replaced")
 	base := e1.IgBases()[0]
 	p := base.Program()
